@@ -1,11 +1,11 @@
 package props
 
 import (
-	"runtime"
 	"encoding/json"
 	"flag"
 	"fmt"
 	"os"
+	"runtime"
 	"strconv"
 	"testing"
 	"time"
@@ -37,20 +37,23 @@ type capTB struct {
 	msgs   []string
 }
 
-func (c *capTB) Helper()                          {}
-func (c *capTB) Name() string                     { return "verif" }
-func (c *capTB) Logf(f string, a ...any)          {}
-func (c *capTB) Log(a ...any)                     {}
-func (c *capTB) Skipf(f string, a ...any)         {}
-func (c *capTB) Skip(a ...any)                    {}
-func (c *capTB) SkipNow()                         {}
-func (c *capTB) Errorf(f string, a ...any)        { c.failed = true; c.msgs = append(c.msgs, fmt.Sprintf(f, a...)) }
-func (c *capTB) Error(a ...any)                   { c.failed = true; c.msgs = append(c.msgs, fmt.Sprint(a...)) }
-func (c *capTB) Fatalf(f string, a ...any)        { c.Errorf(f, a...) }
-func (c *capTB) Fatal(a ...any)                   { c.Error(a...) }
-func (c *capTB) FailNow()                         { c.failed = true }
-func (c *capTB) Fail()                            { c.failed = true }
-func (c *capTB) Failed() bool                     { return c.failed }
+func (c *capTB) Helper()                  {}
+func (c *capTB) Name() string             { return "verif" }
+func (c *capTB) Logf(f string, a ...any)  {}
+func (c *capTB) Log(a ...any)             {}
+func (c *capTB) Skipf(f string, a ...any) {}
+func (c *capTB) Skip(a ...any)            {}
+func (c *capTB) SkipNow()                 {}
+func (c *capTB) Errorf(f string, a ...any) {
+	c.failed = true
+	c.msgs = append(c.msgs, fmt.Sprintf(f, a...))
+}
+func (c *capTB) Error(a ...any)            { c.failed = true; c.msgs = append(c.msgs, fmt.Sprint(a...)) }
+func (c *capTB) Fatalf(f string, a ...any) { c.Errorf(f, a...) }
+func (c *capTB) Fatal(a ...any)            { c.Error(a...) }
+func (c *capTB) FailNow()                  { c.failed = true }
+func (c *capTB) Fail()                     { c.failed = true }
+func (c *capTB) Failed() bool              { return c.failed }
 
 func splitmix(x uint64) uint64 {
 	x += 0x9E3779B97F4A7C15
@@ -189,6 +192,12 @@ func TestProp(t *testing.T) {
 			a.add(cj, res)
 			if *fDet > 0 && len(a.out.TraceHashes) < *fDet {
 				a.out.TraceHashes[strconv.FormatUint(hashBytes(cj), 16)] = ResultHash(res)
+				if os.Getenv("VERIF_DET_DIGEST") != "" {
+					if a.out.TraceDigests == nil {
+						a.out.TraceDigests = map[string]string{}
+					}
+					a.out.TraceDigests[strconv.FormatUint(hashBytes(cj), 16)] = ResultDigest(res)
+				}
 			}
 		}
 		if res.Harness != "" {
